@@ -43,9 +43,10 @@ def h_unit(cx, kind, noise):
     # state reached by an arbitrary history that satisfies the ledger invariant
     b._current_charge = init + e0
     ev._energy_delivered = e0
+    ev._current_charging_rate = cx.real("previous_rate", lo=0)  # whatever the previous period recorded
     evse = EVSE("S", max_rate=float("inf"))
     evse.plugin(ev)
-    pilot = cx.real("pilot", lo=0)
+    pilot = cx.real("pilot", lo=-1e-3)  # every pilot the EVSE accepts, its 1e-3 A tolerance below zero included
     V = cx.real("voltage", lo=0, lo_open=True)
     T = cx.real("period", lo=0, lo_open=True)
     evse.set_pilot(pilot, V, T)
